@@ -18,19 +18,54 @@ const (
 	c10FCQ  = c10Ord + ".forklessCausedByQuorumOn"
 )
 
-// c10MentionsMethod: does n (nested literals excluded) contain a call of a method with this name?
+// c10MentionsMethod: is n (nested literals excluded) computed from a call of a method with this name:
+// the call occurs in n itself, or in the defining expression of a single-definition local that n reads
+// (`sp := e.SelfParent(); … GetEvent(*sp).Frame()` is the same value as `GetEvent(*e.SelfParent()).Frame()`).
 func c10MentionsMethod(f *core.FuncInfo, n ast.Node, method string) bool {
+	return c10MentionsMethodVia(f, n, method, 4)
+}
+
+func c10MentionsMethodVia(f *core.FuncInfo, n ast.Node, method string, depth int) bool {
 	found := false
 	ast.Inspect(n, func(m ast.Node) bool {
 		if _, ok := m.(*ast.FuncLit); ok || found {
 			return false
 		}
-		if call, ok := m.(*ast.CallExpr); ok && methodNamed(calleeName(f, call), method) {
-			found = true
+		switch x := m.(type) {
+		case *ast.CallExpr:
+			if methodNamed(calleeName(f, x), method) {
+				found = true
+			}
+		case *ast.Ident:
+			if depth > 0 {
+				if v, ok := f.Info().Uses[x].(*types.Var); ok && !v.IsField() {
+					if rhs, _ := c15SingleDef(f, v); rhs != nil && c10MentionsMethodVia(f, rhs, method, depth-1) {
+						found = true
+					}
+				}
+			}
 		}
 		return true
 	})
 	return found
+}
+
+// c10IsCopyOf: e (conversions aside) reads the variable v, directly or through single-definition locals
+// that are plain copies. v itself is not looked through: when v is a named result with one assignment
+// in a branch, its value is that assignment's or its zero value, and the reader means the variable.
+func c10IsCopyOf(f *core.FuncInfo, e ast.Expr, v *types.Var) bool {
+	for i := 0; i < 6 && e != nil && v != nil; i++ {
+		e = ast.Unparen(core.StripConv(f.Info(), e))
+		w := varOf(f, e)
+		if w == nil {
+			return false
+		}
+		if w == v {
+			return true
+		}
+		e, _ = c15SingleDef(f, w)
+	}
+	return false
 }
 
 // c10ReachingDefs lists the assignments to v whose value can still be in v at point `at` (no other
@@ -105,7 +140,7 @@ func c10Frame(c *core.Ctx) {
 				isStart := false
 				if fv == spf {
 					isStart = isSpfValue(d)
-				} else if d.RHS != nil && (d.Tok == token.ASSIGN || d.Tok == token.DEFINE) && varOf(f, c15Through(f, core.StripConv(f.Info(), d.RHS))) == spf {
+				} else if d.RHS != nil && (d.Tok == token.ASSIGN || d.Tok == token.DEFINE) && c10IsCopyOf(f, d.RHS, spf) {
 					isStart = true
 					for _, sd := range spfDefs {
 						if !isSpfValue(sd) || f.CanReach(d.Pt, sd.Pt) {
